@@ -31,6 +31,9 @@ type ReqBehav struct {
 	ResetAfter  bool `json:"reset_after,omitempty"`
 	NoReply     bool `json:"no_reply,omitempty"` // swallow the request (caller must time out / cancel)
 	Partial     int  `json:"partial,omitempty"`  // write only this many eighths of the reply, then close (1..7)
+	// Notify: before replying the server sends a message of its own, a server-originated request (KMIP's Notify/Put
+	// direction), which a client ignores
+	Notify bool `json:"notify,omitempty"`
 }
 
 // ConnSc configures the client's i-th dial.
@@ -97,6 +100,7 @@ type callRec struct {
 	startedAfterClose bool
 	startSeq, endSeq  int
 	suffix            bool
+	ctxKind           string // the call carries its own cancellation / deadline
 }
 
 type clientWorld struct {
@@ -115,6 +119,7 @@ type clientWorld struct {
 	seq           int
 	closeReturned bool
 	closeCalled   bool
+	closeSeq      int // value of seq when Close was called (0: never)
 	closePanicked bool
 	cancels       []context.CancelFunc
 	versionsSeen  []kmip.ProtocolVersion                                                            // header version of every request the server decoded
@@ -212,6 +217,16 @@ func (w *clientWorld) peerLoop(c *simnet.Conn, connIdx int) {
 			continue
 		}
 		var err error
+		if b.Notify {
+			w.s.Fault("server-originated-request")
+			ts := time.Unix(1700000000, 0).UTC()
+			note := &kmip.RequestMessage{Header: kmip.RequestHeader{ProtocolVersion: req.Header.ProtocolVersion, TimeStamp: &ts, BatchCount: 1},
+				BatchItem: []kmip.RequestBatchItem{{Operation: kmip.OperationActivate, RequestPayload: &payloads.ActivateRequestPayload{UniqueIdentifier: "server-originated"}}}}
+			if _, err := c.Write(ttlv.MarshalTTLV(note)); err != nil {
+				_ = c.Close()
+				return
+			}
+		}
 		if b.Partial > 0 && w.rawRespond == nil {
 			var resp *kmip.ResponseMessage
 			if w.respond != nil {
@@ -329,7 +344,7 @@ func (c *observeCtx) Value(any) any { return nil }
 
 // doCall performs one call of a caller script and records it.
 func (w *clientWorld) doCall(caller, idx int, cs CallSc, suffix bool) *callRec {
-	rec := &callRec{caller: caller, idx: idx, kind: cs.Kind, suffix: suffix}
+	rec := &callRec{caller: caller, idx: idx, kind: cs.Kind, suffix: suffix, ctxKind: cs.Ctx}
 	n := 1
 	if cs.Kind == "batch" {
 		n = max(cs.N, 1)
@@ -487,6 +502,10 @@ func (w *clientWorld) doClone(caller, idx int) {
 
 func (w *clientWorld) doClose(caller int) {
 	w.closeCalled = true
+	w.seq++
+	if w.closeSeq == 0 {
+		w.closeSeq = w.seq
+	}
 	w.s.Eventf("close by c%d", caller)
 	func() {
 		defer func() {
